@@ -212,7 +212,7 @@ func (t *Transformer) TranslateType() (reflect.Type, error) {
 			if recurseErr != nil {
 				return nil,
 					fmt.Errorf("failed to recursively mangle field %d with mangler %d (type %T): %s",
-						i, manglerNum, mangler, mangleErr)
+						i, manglerNum, mangler, recurseErr)
 			}
 
 			manglerFields = append(manglerFields, nextFields...)
